@@ -264,6 +264,14 @@ class SymCOO:
                     if hit is False:
                         continue
                     acc = acc + core.ite(hit, d, zero)
+                if self.dtype.kind in 'iu' and self.dtype.itemsize < 8:
+                    # scipy sums duplicates in the element type of the matrix: the sum must fit it
+                    info = _np.iinfo(self.dtype)
+                    if isinstance(acc, core.SVal):
+                        if core.active():
+                            core.cur().wrap_obligations.append((self.dtype.name, core.sand(acc >= int(info.min), acc <= int(info.max))))
+                    elif not (info.min <= acc <= info.max):
+                        acc = int(_np.array(acc).astype(self.dtype))      # wraps, as the real sum does
                 o[i, j] = acc
         r = o.view(SArr)
         r.ldtype = self.dtype
